@@ -66,7 +66,7 @@ pub fn run(max_n: usize, shards: usize, outdir: &str) {
     );
 }
 
-/// larger n: only the first `steps` calls of next (hint before each call and once after), plus binom for all n <= 62
+/// larger n: only the first `steps` calls of next (hint before each call and once after), plus binom alone for all n <= 80 and some larger n
 pub fn run_prefix(min_n: usize, max_n: usize, steps: usize, outdir: &str) {
     std::panic::set_hook(Box::new(|_| {}));
     let mut cases = Vec::new();
@@ -116,12 +116,23 @@ pub fn run_prefix(min_n: usize, max_n: usize, steps: usize, outdir: &str) {
     std::fs::write(format!("{}/cases_selp_00.json", outdir), serde_json::to_string(&meta).unwrap()).unwrap();
     let mut bc = Vec::new();
     let mut bm = Vec::new();
-    for n in 0..=62usize {
+    // every (n, k) up to n = 80 (beyond n = 67 the count itself exceeds usize for the middle k), and larger n at the ends, around the
+    // middle and where the count just fits / just does not fit
+    let mut nks: Vec<(usize, usize)> = Vec::new();
+    for n in 0..=80usize {
         for k in 0..=(n + 1) {
-            let b = std::panic::catch_unwind(|| binom(n, k)).ok();
-            bc.push(format!("({}, {}, {})", n, k, g_opt(&b, |x| g_n(*x as u128))));
-            bm.push(json!({"n": n, "k": k, "mode": "binom", "binom": b}));
+            nks.push((n, k));
         }
+    }
+    for n in [100usize, 128, 200, 500] {
+        for k in [0, 1, 2, 3, 9, 10, 11, 12, n / 2 - 1, n / 2, n - 12, n - 11, n - 10, n - 3, n - 2, n - 1, n, n + 1] {
+            nks.push((n, k));
+        }
+    }
+    for (n, k) in nks {
+        let b = std::panic::catch_unwind(|| binom(n, k)).ok();
+        bc.push(format!("({}, {}, {})", n, k, g_opt(&b, |x| g_n(*x as u128))));
+        bm.push(json!({"n": n, "k": k, "mode": "binom", "binom": b.map(|x| x.to_string())}));
     }
     let f = cases_file("Require Import CorrSel.\nOpen Scope list_scope.", "binom_case", "check_binom", &bc);
     std::fs::write(format!("{}/cases_binom_00.v", outdir), f).unwrap();
